@@ -56,6 +56,7 @@ type Call struct {
 	Started  time.Duration
 	Returned bool
 	RetAt    time.Duration
+	RetSent  int // how many datagrams the client had written when the call returned
 	Err      string // "" = nil
 }
 
@@ -111,6 +112,7 @@ func (c *CL) Go(name string, f func() error) *Call {
 	c.Calls = append(c.Calls, call)
 	vsched.Go(func() {
 		err := f()
+		call.RetSent = c.SentCount()
 		call.Returned = true
 		call.RetAt = c.now()
 		if err != nil {
